@@ -175,6 +175,8 @@ pub trait RouterHandleOps {
     fn trigger_keepalive(&self);
     /// the next request id the handle would hand out
     fn next_request_id(&self) -> u64;
+    /// capacity of the real submit channel (`mpsc::Sender::max_capacity`)
+    fn submit_capacity(&self) -> usize;
     /// state of the i-th prefilled handler's receiver (None before the router's first poll / out of range)
     fn prefilled(&self, i: usize) -> Option<(i16, RxPoll)>;
     fn clone_handle(&self) -> RouterHandle;
